@@ -179,7 +179,9 @@ def encode_url(url_str: str) -> "URL":
             cache["raw_user"] = None
             cache["raw_password"] = None
         else:
-            raw_user = REQUOTER(username) if username else username
+            # A user that requotes to nothing (lone surrogates only) is no user:
+            # make_netloc() drops it, so the cached value has to be None as well.
+            raw_user = (REQUOTER(username) or None) if username else username
             raw_password = REQUOTER(password) if password else password
             netloc = make_netloc(raw_user, raw_password, host, port)
             cache["raw_user"] = raw_user
